@@ -1,4 +1,41 @@
-(* C06 — theorems in progress; this file is replaced as they are proved *)
-From AB Require Import Check.WorldCheck.
-Theorem c06_placeholder : True. Proof. exact I. Qed.
-Print Assumptions c06_placeholder.
+(* C06 — after a password change the old password is dead: the stored hash verifies the new
+   password and no other, and the account's remember tokens are dropped. *)
+From AB Require Import World.Handlers World.Step Proofs.MonadInv Proofs.StoreLogic Proofs.TokenProofs.
+
+(* a stored hash of p verifies p and rejects every other password (bcrypt's 72-byte domain) *)
+Theorem c06_password_change : forall (C : crypto), crypto_laws C ->
+  (forall p q, pw_dom p -> pw_dom q -> p <> q -> pwcheck C (pwhash C p) q = false) /\
+  (forall p, pw_dom p -> pwcheck C (pwhash C p) p = true).
+Proof. exact password_change_lemma. Qed.
+Print Assumptions c06_password_change.
+
+(* Authboss.UpdatePassword that returns nil: the record of pid now carries the hash of pw and
+   nothing else about it changed, pid has no remember tokens left, and nobody else's record or
+   tokens changed.  [keyed]: records are filed under their own pid. *)
+Theorem c06_admin_update_password : forall (C : crypto) cfg O pid pw h h',
+  keyed (h_st h) ->
+  admin C cfg O (AUpdatePassword pid pw) h = (Ok tt, h') ->
+  pw_dom pw /\
+  exists u, ulookup pid (s_users (h_st h)) = Some u /\
+    ulookup pid (s_users (h_st h')) = Some (u <| u_password := pwhash C pw |>) /\
+    rmlookup pid (s_rm (h_st h')) = [] /\
+    (forall p, p <> pid ->
+       ulookup p (s_users (h_st h')) = ulookup p (s_users (h_st h)) /\
+       rmlookup p (s_rm (h_st h')) = rmlookup p (s_rm (h_st h))).
+Proof. exact admin_update_password_lemma. Qed.
+Print Assumptions c06_admin_update_password.
+
+(* recover end that changed the user table: the stored hash of that account verifies the
+   submitted password and no other one (final state, all event hooks included) *)
+Theorem c06_recover_sets_password : forall (E : env) h r h',
+  crypto_laws (e_C E) ->
+  recover_end_post E h = (r, h') -> s_users (h_st h') <> s_users (h_st h) ->
+  exists raw u su,
+    b64url_dec (aget f_token (values E)) = Some raw /\
+    ufind (fun u => beqb (u_rsel u) (selector_of E raw)) (s_users (h_st h)) = Some u /\
+    ulookup (u_pid u) (s_users (h_st h')) = Some su /\
+    u_password su = pwhash (e_C E) (aget f_password (values E)) /\
+    pwcheck (e_C E) (u_password su) (aget f_password (values E)) = true /\
+    (forall q, pw_dom q -> q <> aget f_password (values E) -> pwcheck (e_C E) (u_password su) q = false).
+Proof. exact recover_sets_password_lemma. Qed.
+Print Assumptions c06_recover_sets_password.
